@@ -4,6 +4,8 @@
 //!   vsim replay FILE
 //!   vsim gen --profile P --variant V --seed S --index I
 
+#[path = "../../vnative/src/contain.rs"]
+mod contain;
 mod exec;
 mod scenario;
 
@@ -47,6 +49,72 @@ fn check_host_layout() {
     }
 }
 
+/// Execute in a forked child (used after a worker died, to pin the scenario): a child that dies by
+/// SIGABRT is an observation — the code under test panicked inside a destructor during unwinding,
+/// which in the real process is an abort; any other signal means the tree bypassed a simulation
+/// seam and this scenario cannot be decided.
+fn execute_contained(sc: &SimScenario) -> Result<exec::Outcome, String> {
+    let scc = sc.clone();
+    let end = contain::run_contained(45, move || {
+        let out = exec::execute(&scc);
+        json!({
+            "violations": out.violations.iter().map(|v| json!({"tag": v.tag, "props": v.props, "detail": v.detail})).collect::<Vec<_>>(),
+            "digest": format!("{:016x}", out.digest),
+            "events": out.events, "installs_ok": out.installs_ok, "installs_refused": out.installs_refused, "interp_steps": out.interp_steps,
+            "probes": out.probes, "faults": out.faults,
+        })
+    });
+    match end {
+        contain::ChildEnd::Report(v) => {
+            let mut out = exec::Outcome::default();
+            out.digest = u64::from_str_radix(v["digest"].as_str().unwrap_or("0"), 16).unwrap_or(0);
+            out.events = v["events"].as_u64().unwrap_or(0);
+            out.installs_ok = v["installs_ok"].as_u64().unwrap_or(0);
+            out.installs_refused = v["installs_refused"].as_u64().unwrap_or(0);
+            out.interp_steps = v["interp_steps"].as_u64().unwrap_or(0);
+            for (key, acc) in [("probes", &mut out.probes), ("faults", &mut out.faults)] {
+                if let Some(o) = v[key].as_object() {
+                    for (k, x) in o {
+                        acc.insert(k.clone(), x.as_u64().unwrap_or(0));
+                    }
+                }
+            }
+            if let Some(vs) = v["violations"].as_array() {
+                for x in vs {
+                    let props: Vec<&'static str> = x["props"].as_array().map(|a| a.iter().filter_map(|p| p.as_str()).map(|p| exec::intern_prop(p)).collect()).unwrap_or_default();
+                    out.violations.push(exec::Violation { tag: x["tag"].as_str().unwrap_or("").to_string(), props, detail: x["detail"].as_str().unwrap_or("").to_string() });
+                }
+            }
+            Ok(out)
+        }
+        contain::ChildEnd::Signal(s) if s == libc::SIGABRT => {
+            let mut out = exec::Outcome::default();
+            out.digest = 0xAB0;
+            out.installs_ok = 1;
+            out.violations.push(exec::Violation {
+                tag: "process-abort[panic inside a destructor during unwinding]".into(),
+                props: vec!["C05", "C02"],
+                detail: "the simulated process aborted (SIGABRT): the code under test raised a second panic from a destructor while unwinding — restoration did not complete and the process would have been killed".into(),
+            });
+            Ok(out)
+        }
+        contain::ChildEnd::Signal(s) if s == libc::SIGALRM => {
+            let mut out = exec::Outcome::default();
+            out.digest = 0xA1A;
+            out.installs_ok = 1;
+            out.violations.push(exec::Violation {
+                tag: "operation-never-returns[watchdog]".into(),
+                props: vec!["C11", "C01", "C02"],
+                detail: "an installation or scope exit did not return within the simulated-run watchdog (the full 2 GiB window scan takes about a second): it neither succeeded nor failed with a panic".into(),
+            });
+            Ok(out)
+        }
+        contain::ChildEnd::Signal(s) => Err(format!("worker killed by {} (the tree touches simulated memory outside the seams)", contain::signal_name(s))),
+        contain::ChildEnd::Exit(c) => Err(format!("worker exit {c}")),
+        contain::ChildEnd::NoReport => Err("worker produced no report".into()),
+    }
+}
+
 fn viol_json(v: &exec::Violation) -> serde_json::Value {
     json!({"tag": v.tag, "props": v.props, "detail": v.detail})
 }
@@ -73,7 +141,9 @@ fn ensure_no_aslr() {
 fn main() {
     ensure_no_aslr();
     let args: Vec<String> = std::env::args().collect();
-    std::panic::set_hook(Box::new(|_| {}));
+    if std::env::var("VSIM_TRACE").is_err() {
+        std::panic::set_hook(Box::new(|_| {}));
+    }
     check_host_layout();
     match args.get(1).map(|s| s.as_str()) {
         Some("gen") => {
@@ -86,6 +156,8 @@ fn main() {
             println!("{}", serde_json::to_string_pretty(&sc).unwrap());
         }
         Some("replay") => {
+            let contained = args.iter().any(|a| a == "--contained") || true;
+            let _ = contained;
             let text = std::fs::read_to_string(&args[2]).expect("read replay file");
             let v: serde_json::Value = serde_json::from_str(&text).expect("parse replay file");
             let scv = if v.get("scenario").is_some() { v["scenario"].clone() } else { v };
@@ -100,7 +172,14 @@ fn main() {
                 println!("{}", json!({"invalid": e}));
                 return;
             }
-            let out = exec::execute(&sc);
+            // replays are always contained: a scenario that kills the worker must replay as such
+            let out = match execute_contained(&sc) {
+                Ok(o) => o,
+                Err(e) => {
+                    println!("{}", json!({"violations": [], "undecided": e}));
+                    return;
+                }
+            };
             println!(
                 "{}",
                 json!({
@@ -123,6 +202,10 @@ fn main() {
                 (it.next().unwrap().parse::<u64>().unwrap(), it.next().unwrap().parse::<u64>().unwrap())
             };
             let want_prop = arg(&args, "--prop").map(|s| s.to_string());
+            let contained = args.iter().any(|a| a == "--contained");
+            let mut undecided = 0u64;
+            let mut fatal_outcomes = 0u32;
+            let mut undecided_why = String::new();
             let mut evaluations = 0u64;
             let mut skipped = 0u64;
             let mut nontrivial = 0u64;
@@ -149,7 +232,22 @@ fn main() {
                     idx += sn;
                     continue;
                 }
-                let out = exec::execute(&sc);
+                let out = if contained {
+                    match execute_contained(&sc) {
+                        Ok(o) => o,
+                        Err(e) => {
+                            undecided += 1;
+                            undecided_why = format!("scenario {idx}: {e}");
+                            idx += sn;
+                            continue;
+                        }
+                    }
+                } else {
+                    unsafe { libc::alarm(90) };
+                    let o = exec::execute(&sc);
+                    unsafe { libc::alarm(0) };
+                    o
+                };
                 evaluations += 1;
                 *per_variant.entry(variant.clone()).or_insert(0) += 1;
                 events += out.events;
@@ -186,6 +284,13 @@ fn main() {
                         *other_prop_violations.entry(format!("{}:{}", v.props.join("+"), v.tag)).or_insert(0) += 1;
                     }
                 }
+                if contained && out.violations.iter().any(|v| v.tag.starts_with("operation-never-returns") || v.tag.starts_with("process-abort")) {
+                    fatal_outcomes += 1;
+                }
+                if contained && fatal_outcomes >= 2 {
+                    // enough evidence; every further hanging scenario would cost a watchdog period
+                    break;
+                }
                 if samples.len() < 2 && out.installs_ok > 0 && si == 0 {
                     samples.push(json!(sc));
                 }
@@ -208,7 +313,9 @@ fn main() {
                     "violations": violations,
                     "other_prop_violations": other_prop_violations,
                     "samples": samples,
-                    "extra": {"scenarios_skipped_ill_formed": skipped},
+                    "extra": {"scenarios_skipped_ill_formed": skipped, "scenarios_undecided_worker_crash": undecided},
+                    "undecided": undecided,
+                    "undecided_why": undecided_why,
                 })
             );
         }
